@@ -220,36 +220,86 @@ def analyse(text):
                     seg = body[i:j + 1]
                     has_return = any(isinstance(x, (ast.Return, ast.Yield, ast.YieldFrom))
                                      for s_ in seg for x in ast.walk(s_))
-                    def _pure_stmt(st_):
-                        if not isinstance(st_, (ast.Assign, ast.AugAssign)):
-                            return False
-                        tg = st_.targets if isinstance(st_, ast.Assign) else [st_.target]
-                        if not all(isinstance(t_, ast.Name) for t_ in tg):
-                            return False
-                        for x in ast.walk(st_.value):
+                    def _pure_expr(ex_):
+                        for x in ast.walk(ex_):
                             if isinstance(x, (ast.NamedExpr, ast.Yield, ast.YieldFrom, ast.Await, ast.Lambda,
                                               ast.ListComp, ast.SetComp, ast.DictComp, ast.GeneratorExp)):
                                 return False
                             if isinstance(x, ast.Call) and (IMPURE_CALLEES.match(_callee_name(x)) or x.keywords):
                                 return False
                         return True
-                    # a variable that the block reads before (re)binding it itself
+
+                    def _pure_stmt(st_):
+                        # plain assignments with pure values, and if/for statements made of them
+                        if isinstance(st_, ast.If):
+                            return _pure_expr(st_.test) and all(_pure_stmt(x) for x in st_.body + st_.orelse)
+                        if isinstance(st_, ast.For):
+                            return isinstance(st_.target, ast.Name) and _pure_expr(st_.iter) \
+                                and not st_.orelse and all(_pure_stmt(x) for x in st_.body)
+                        if not isinstance(st_, (ast.Assign, ast.AugAssign)):
+                            return False
+                        tg = st_.targets if isinstance(st_, ast.Assign) else [st_.target]
+                        if not all(isinstance(t_, ast.Name) for t_ in tg):
+                            return False
+                        return _pure_expr(st_.value)
+
+                    def _events(st_):
+                        # (loads, stores) per simple statement / header, in textual order
+                        if isinstance(st_, ast.If):
+                            yield {x.id for x in ast.walk(st_.test) if isinstance(x, ast.Name)}, set()
+                            for x in st_.body + st_.orelse:
+                                yield from _events(x)
+                        elif isinstance(st_, (ast.For, ast.AsyncFor)):
+                            yield {x.id for x in ast.walk(st_.iter) if isinstance(x, ast.Name)}, \
+                                {x.id for x in ast.walk(st_.target) if isinstance(x, ast.Name)}
+                            for x in st_.body + st_.orelse:
+                                yield from _events(x)
+                        else:
+                            val = getattr(st_, 'value', None)
+                            loads = {x.id for x in (ast.walk(val) if val is not None else ())
+                                     if isinstance(x, ast.Name)}
+                            if isinstance(st_, ast.AugAssign) and isinstance(st_.target, ast.Name):
+                                loads.add(st_.target.id)
+                            yield loads, {t_.id for t_ in ast.walk(st_)
+                                          if isinstance(t_, ast.Name) and isinstance(t_.ctx, ast.Store)}
+                    # a variable that the block reads before (re)binding it itself (textual order)
                     all_assigned = {t_.id for s_ in seg for t_ in ast.walk(s_)
                                     if isinstance(t_, ast.Name) and isinstance(t_.ctx, ast.Store)}
                     so_far, reads_own = set(), False
                     for s_ in seg:
-                        val = getattr(s_, 'value', None)
-                        loads = {x.id for x in (ast.walk(val) if val is not None else ())
-                                 if isinstance(x, ast.Name)}
-                        if isinstance(s_, ast.AugAssign) and isinstance(s_.target, ast.Name):
-                            loads.add(s_.target.id)
-                        if (loads & all_assigned) - so_far:
-                            reads_own = True
-                        so_far |= {t_.id for t_ in ast.walk(s_)
-                                   if isinstance(t_, ast.Name) and isinstance(t_.ctx, ast.Store)}
+                        for loads, stores in _events(s_):
+                            if (loads & all_assigned) - so_far:
+                                reads_own = True
+                            so_far |= stores
+                    # a variable whose only bindings in the block sit in if/for bodies and whose
+                    # every read in the block comes later in the same body (so no read of it in
+                    # the block can see the binding made before the block)
+                    cond_only = False
+                    top_stores = {t_.id for s_ in seg if isinstance(s_, (ast.Assign, ast.AugAssign))
+                                  for t_ in ast.walk(s_) if isinstance(t_, ast.Name)
+                                  and isinstance(t_.ctx, ast.Store)}
+                    bodies = [b_ for s_ in seg for c_ in ast.walk(s_) if isinstance(c_, (ast.If, ast.For))
+                              for b_ in (c_.body, c_.orelse) if b_]
+                    for name_ in all_assigned - top_stores:
+                        loads_all = {id(x) for s_ in seg for x in ast.walk(s_)
+                                     if isinstance(x, ast.Name) and x.id == name_ and isinstance(x.ctx, ast.Load)}
+                        dominated = set()
+                        for b_ in bodies:
+                            for k_, st_ in enumerate(b_):
+                                if isinstance(st_, (ast.Assign, ast.AugAssign)) and any(
+                                        isinstance(t_, ast.Name) and t_.id == name_ and isinstance(t_.ctx, ast.Store)
+                                        for t_ in ast.walk(st_)):
+                                    dominated |= {id(x) for later in b_[k_ + 1:] for x in ast.walk(later)
+                                                  if isinstance(x, ast.Name) and x.id == name_}
+                                    break
+                        for_targets = {t_.id for s_ in seg for c_ in ast.walk(s_) if isinstance(c_, ast.For)
+                                       for t_ in ast.walk(c_.target) if isinstance(t_, ast.Name)}
+                        if name_ not in for_targets and loads_all <= dominated:
+                            cond_only = True
                     stmts.append({'start': (a.lineno, a.col_offset), 'end': (b.end_lineno, b.end_col_offset),
                                   'flags': {'statements': j - i + 1, 'has_return_or_yield': has_return,
                                             'reads_variable_it_rebinds': reads_own,
+                                            'rebinds_only_conditionally': cond_only,
                                             'pure_block': all(_pure_stmt(s_) for s_ in seg),
                                             'first': type(a).__name__,
                                             'contains_comprehension': any(
